@@ -108,6 +108,7 @@ class Emit:
                 if p["name"] == "self":
                     if not p.get("ref") and not p["ty"].replace(" ", "").startswith("Pin<"):
                         f.env["self"] = ("selfval",)
+                        binders.append("(self_ : fb)")
                     continue
                 ov = cfg.get("param_types", {}).get(p["name"])
                 ty = ov if ov else parse_ty(p["ty"], generics)
@@ -199,6 +200,9 @@ def gen_fb(tr, em):
     pure_cfg = {"struct": st, "pure": True, "touch": "(SIZE, chk)", "record": {"mem": "mem", "read_index": "read_index", "write_index": "write_index"}}
     for nm in ("new", "empty", "filled"):
         em.translate_fn("fixed-buffer/src/lib.rs", nm, nm, pure_cfg, self_like="FixedBuf")
+    pure2 = dict(pure_cfg, ctor_calls={"Self::new": ("new", 0)}, record_types={"mem": ("array",)})
+    em.translate_fn("fixed-buffer/src/lib.rs", "default", "default", pure2, trait="Default", self_like="FixedBuf")
+    em.translate_fn("fixed-buffer/src/lib.rs", "into_inner", "into_inner", pure2, self_like="FixedBuf")
     cfg = {"struct": st, "monad": "MF", "auto_helpers": True, "touch": "(SIZE, chk)"}
     names = {"mem": "mem_"}
     order = ["len", "is_empty", "clear", "mem", "readable", "read_bytes", "read_byte", "try_read_byte", "try_read_bytes", "read_all",
@@ -306,6 +310,13 @@ def gen_tokio(tr, em):
     pcfg = {"struct": inner, "monad": "MF", "newtype": True, "touch": "chk", "param_types": {"_cx": ("skip",), "cx": ("skip",)}}
     for nm, cn in (("poll_read", "afb_poll_read"), ("poll_write", "afb_poll_write"), ("poll_flush", "afb_poll_flush"), ("poll_shutdown", "afb_poll_shutdown")):
         em.translate_fn(F, nm, cn, pcfg, trait="tokio::io::AsyncRead" if nm == "poll_read" else "tokio::io::AsyncWrite", self_like="AsyncFixedBuf")
+    # constructors of the newtype: AsyncFixedBuf(FixedBuf::new()) etc. (FixedBuf is the registry copy = Model/Fb.v)
+    o.append("Variable SIZE : Z.\n")
+    ncfg = {"struct": inner, "pure": True, "newtype": True, "touch": "(SIZE, chk)", "record": {},
+            "ctor_calls": {"AsyncFixedBuf": (None, None), "Self": (None, None), "FixedBuf::new": ("(new SIZE)", 0),
+                           "FixedBuf::empty": ("empty", 1), "FixedBuf::filled": ("(filled SIZE)", 1)}}
+    for nm in ("new", "empty", "filled", "into_inner"):
+        em.translate_fn(F, nm, "afb_" + nm, ncfg, self_like="AsyncFixedBuf")
     o.append("End G.\n")
 
 
